@@ -414,6 +414,35 @@ fn mode_c(seed: u64, variant: u64) -> Result<String> {
     } else {
         dsti
     };
+    // material for the extracted copy model (`needed`): the snapshot trees with their tree ids, and per run the
+    // relevant part of the destination index before it and the (type, id) pairs the run added
+    let mut extra = String::new();
+    {
+        let get = |id: &TreeId| -> Result<Tree> { Ok(src.get_tree(id)?) };
+        let short = |id: &Id| id_to_u64(id) >> 20;
+        for (i, s) in snaps.iter().enumerate() {
+            extra.push_str(" | T");
+            render(&get, &s.tree, Style::Real, &mut extra)?;
+            let dirs: Vec<String> = lists[i]
+                .iter()
+                .filter_map(|(p, n)| match (n.is_dir(), &n.subtree) {
+                    (true, Some(t)) => Some(format!("{} {}", path_hex(p), short(&Id::from(**t)))),
+                    _ => None,
+                })
+                .collect();
+            extra.push_str(&format!(" | I {i} {} {} {}", short(&Id::from(*s.tree)), dirs.len(), dirs.join(" ")));
+        }
+        let all_reach = reach(&[0, 1, 2]);
+        for (k, (before, after, which)) in runs.iter().enumerate() {
+            let b: Vec<String> = before.intersection(&all_reach).map(|(t, i)| format!("{} {}", u8::from(*t), short(i))).collect();
+            let d: Vec<String> = after.difference(before).map(|(t, i)| format!("{} {}", u8::from(*t), short(i))).collect();
+            extra.push_str(&format!(
+                " | Q {k} {} {} | B {k} {} {} | D {k} {} {}",
+                which.len(), which.iter().map(usize::to_string).collect::<Vec<_>>().join(" "),
+                b.len(), b.join(" "), d.len(), d.join(" ")
+            ));
+        }
+    }
     for (before, after, which) in &runs {
         let expected: BTreeSet<(bool, Id)> = reach(which).difference(before).copied().collect();
         let added: BTreeSet<(bool, Id)> = after.difference(before).copied().collect();
@@ -480,7 +509,7 @@ fn mode_c(seed: u64, variant: u64) -> Result<String> {
     }
     let ok = check && ls_equal && dump_equal && found && restore_equal && needed_ok;
     Ok(format!(
-        "{} check={} found={} ls_equal={} dump_equal={} restore_equal={} needed_ok={} needed={needed_total} damaged={damaged} lost_blobs={lost_blobs} lost_tree_pack={lost_tree_pack} copies={} present_before={} coll={} coll_tree={} prepop={} files={} detail={}",
+        "{} check={} found={} ls_equal={} dump_equal={} restore_equal={} needed_ok={} needed={needed_total} damaged={damaged} lost_blobs={lost_blobs} lost_tree_pack={lost_tree_pack} copies={} present_before={} coll={} coll_tree={} prepop={} files={} detail={}{extra}",
         if ok { "ok" } else { "fail what=copy" },
         u8::from(check), u8::from(found), u8::from(ls_equal), u8::from(dump_equal), u8::from(restore_equal), u8::from(needed_ok), copies, present,
         u8::from(coll), coll_tree, u8::from(prepop), lists.iter().map(Vec::len).sum::<usize>(), if detail.is_empty() { "-".into() } else { detail }
